@@ -36,6 +36,38 @@ CHECKS = {
         design="DESIGN.md 5 (C05)",
         technique="TLA+ spec + TLC exhaustive + simulation; spec->code replay of every scored history; code->spec trace validation",
     ),
+    "C03": dict(
+        engine="tla-manager",
+        text="Manager.tla is the add_frame_result step machine (manager filter, two-stage matching via INSTANCE Matching, uuid filter, critical filter, "
+        "pass/fail classification, AP). TLC checks results = TP+FP, ground-truth conservation (TP / FN / TN / matched FP exactly once), TP "
+        "justification, nothing-outside-critical and AP <= 1 in every state over families of configurations x lattice scenes; every terminated "
+        "state is replayed through a real PerceptionEvaluationManager with objects stored in base_link and in map under two ego poses and the "
+        "object results, critical ground truth, the four pass/fail lists, get_num_success/fail and AP rows are compared with the specification.",
+        note="lattice scenes (equal aligned boxes, bounds in odd half units); frame configs use the manager's target list; float scenes: see DESIGN (engine T for the pipeline)",
+        design="DESIGN.md 5 (C03)",
+        technique="TLA+ spec + TLC (exhaustive slices + RandomSubset sampling of the product); spec->code replay in two frame renderings",
+    ),
+    "C07": dict(
+        engine="tla-manager",
+        text="The specification (Manager.tla) is frame-free: scenes are ego-relative. Every scene TLC enumerates is executed by the real manager with "
+        "objects stored in base_link and stored in map (ego poses: quarter turn + km translation; yaw 0.7 rad); map executions must be behaviours "
+        "of the same specification, and where the specification admits one outcome the two executions are compared field by field (filtering, "
+        "matching, TP/FP/FN/TN, AP, APH).",
+        note="no decision within tolerance of its boundary (lattice design); tracking metrics across frames are covered by C05/C13 drivers",
+        design="DESIGN.md 5 (C07)",
+        technique="TLA+ spec + TLC; spec->code replay in ego and map renderings + direct differential comparison",
+    ),
+    "C10": dict(
+        engine="tla-filter",
+        text="Filter.tla specifies _is_target_object / filter_objects / filter_object_results with the documented relaxations. TLC enumerates every "
+        "object of a position x label x attribute x confidence x points x uuid grid as estimate and as ground truth against x/y, ring and "
+        "label-only parameter sets and short lists, checking kept-exactly, order, idempotence, widening monotonicity, FP-always-passes and "
+        "result-needs-both; every state is replayed through the real functions in base_link (with/without transforms), map (with ego pose) and 2-D "
+        "renderings, and the manager's _filter_objects is compared on the C03 scenes.",
+        note="integer coordinates against odd half-unit bounds; mean bounds with sum = 2 mod 4 (no boundary hits)",
+        design="DESIGN.md 5 (C10)",
+        technique="TLA+ spec + TLC exhaustive; spec->code replay of every evaluated state",
+    ),
     "C02": dict(
         engine="tla-matching",
         text="Same specification and runs as C01; the no-blocking-pair predicates, stage order, exactness without ties (declarative Greedy2) and "
